@@ -584,12 +584,24 @@ def case_api(ctx, inp):
 
 
 def _sync(fn):
-    """Bags default to the multiprocessing scheduler: run every case on the synchronous one."""
+    """Bags default to the multiprocessing scheduler: run every case on the synchronous one. The files of a disk
+    shuffle (partd) go to a per-case directory under tempfile.gettempdir() that the case removes itself."""
     @functools.wraps(fn)
     def wrapped(ctx, inp):
+        import shutil
+        import tempfile
         import dask
-        with dask.config.set(scheduler="sync"):
-            return fn(ctx, inp)
+        uses_disk = inp.get("method") == "disk" or inp.get("disk")
+        td = tempfile.mkdtemp(prefix="verif_bag_partd_") if uses_disk else None
+        try:
+            cfg = {"scheduler": "sync"}
+            if td:
+                cfg["temporary_directory"] = td
+            with dask.config.set(cfg):
+                return fn(ctx, inp)
+        finally:
+            if td:
+                shutil.rmtree(td, ignore_errors=True)
     return wrapped
 
 
